@@ -71,13 +71,19 @@ QPhi(d, l, e) == (l + d + e * (l + 1)) % 4
 QPsi(d, l, e) == IF d = 1 /\ e = 0 THEN 1 ELSE (l * l + 2 * d + 3 * e + l) % 4   \* draw 1: all rays aligned at k = 0
 CosQ(q)  == CASE q = 0 -> 1 [] q = 1 -> 0 [] q = 2 -> -1 [] q = 3 -> 0
 UnitQ(m) == CASE m = 0 -> <<1, 0>> [] m = 1 -> <<0, 1>> [] m = 2 -> <<-1, 0>> [] m = 3 -> <<0, -1>>
-RECURSIVE SumRays(_, _, _, _)
-SumRays(d, e, r, l) ==    \* SUM over rays l..L-1 of the unit phasor at sample index = r (mod 4)
-  IF l = L THEN <<0, 0>>
+RECURSIVE SumRays(_, _, _, _, _)
+SumRays(d, e, r, l, top) ==    \* SUM over rays l..top-1 of the unit phasor at sample index = r (mod 4)
+  IF l >= top THEN <<0, 0>>
   ELSE LET u == UnitQ((FdQ * CosQ(QPhi(d, l, e)) * r + QPsi(d, l, e)) % 4)
-           t == SumRays(d, e, r, l + 1)
+           t == SumRays(d, e, r, l + 1, top)
        IN  <<u[1] + t[1], u[2] + t[2]>>
-Val(d, e, r) == SumRays(d, e, r, 0)                      \* sqrt(L) * h at any k with k % 4 = r
+Val(d, e, r) == SumRays(d, e, r, 0, L)                   \* sqrt(L) * h at any k with k % 4 = r: ALL L rays
+\* The machine may accumulate the rays in passes of RayPass (bounded temporaries).  Whatever the pass
+\* structure, every one of the L rays has to arrive in the sum; the deviation computes the number of passes
+\* by floor division and so drops the last L % RayPass rays once L > RayPass (the scaling stays 1/sqrt(L)).
+RayPass == 16
+LSummed == IF Dev.DropsTailRays /\ L >= RayPass THEN (L \div RayPass) * RayPass ELSE L
+ValM(d, e, r) == SumRays(d, e, r, 0, LSummed)            \* what the machine returns
 PeriodTable(d, sh) == [e \in 1..Prod(sh) |-> [r \in 1..4 |-> Val(d, e - 1, r - 1)]]
 \* the numbers the (table-driven) random source must deliver for draw d and shape sh: rand(L, sh.., 1)
 \* row-major; the code multiplies by 2 pi, so quarter q is delivered as q/4 (the replay divides)
@@ -309,19 +315,21 @@ BuffersDistinct == \A g, h \in 1..NG : g # h => gens[g].buf # gens[h].buf
 \*   QueriesPure             get_samples / shape / L / Ts / Fd may be read any number of times without effect
 Frame == {"EarlierBlocksUnchanged", "OthersUnchanged", "ArgumentsUnchanged", "QueriesPure"}
 Laws(r) == IF r.op \in BlockOps
-             THEN Frame \cup {"Count", "Contiguity", "OnGrid", "PhasesFixed", "Bound"}
+             THEN Frame \cup {"Count", "Contiguity", "OnGrid", "PhasesFixed", "Bound", "EveryRayCounts"}
                         \cup (IF (Lattice /\ FdQ = 0) THEN {"ZeroDoppler"} ELSE {})
              ELSE Frame \cup {"StoredBlockKept"}
 
 \* exact values (lattice instance): |h|^2 = (re^2 + im^2) * Norm2 <= L for every draw, element, index
-AllVals == {Val(d, e, r) : d \in 1..draws, e \in 0..1, r \in 0..3}
+AllVals == {ValM(d, e, r) : d \in 1..draws, e \in 0..1, r \in 0..3}
+\* every ray of the model is in the sum, for every ray count (also beyond / not a multiple of the pass size)
+EveryRayCounts == Lattice => \A d \in 1..draws, e \in 0..1, r \in 0..3 : ValM(d, e, r) = Val(d, e, r)
 Bound == Lattice => \A v \in AllVals : (v[1] * v[1] + v[2] * v[2]) * Norm2[1] <= L * Norm2[2]
 \* the bound is attained: with all rays aligned (draw 1, element 0, k = 0) |h|^2 = L
 BoundTight == (Lattice /\ draws >= 1) =>
-                LET v == Val(1, 0, 0) IN (v[1] * v[1] + v[2] * v[2]) * Norm2[1] = L * Norm2[2]
+                LET v == ValM(1, 0, 0) IN (v[1] * v[1] + v[2] * v[2]) * Norm2[1] = L * Norm2[2]
 \* a zero Doppler frequency gives a time-invariant channel
 ZeroDoppler == (Lattice /\ FdQ = 0) =>
-                 \A d \in 1..draws, e \in 0..1, r \in 1..3 : Val(d, e, r) = Val(d, e, 0)
+                 \A d \in 1..draws, e \in 0..1, r \in 1..3 : ValM(d, e, r) = ValM(d, e, 0)
 \* and a non-zero one does not (the values above are not vacuous)
 Moves == (Lattice /\ FdQ # 0 /\ draws >= 1) => \E r \in 1..3 : Val(1, 0, r) # Val(1, 0, 0)
 UnitPower == (Lattice /\ draws >= 1) => Norm2[1] * L = Norm2[2]
